@@ -1118,11 +1118,10 @@ where
 {
     fn extend<T: IntoIterator<Item = (I, P)>>(&mut self, iter: T) {
         let iter = iter.into_iter();
-        let (min, max) = iter.size_hint();
-        let rebuild = if let Some(max) = max {
-            self.reserve(max);
-            better_to_rebuild(self.len(), max)
-        } else if min != 0 {
+        // only the lower bound is guaranteed to be yielded: the upper bound
+        // may be arbitrarily far above it (e.g. for a filtered range)
+        let (min, _) = iter.size_hint();
+        let rebuild = if min != 0 {
             self.reserve(min);
             better_to_rebuild(self.len(), min)
         } else {
